@@ -741,5 +741,622 @@ theorem decF_agree (d : Nat) : ∀ (fs : List Fmt) (s1 s2 : List Nat), agreeNonC
     · subst h1; rfl
     · rw [h1]
 
+/-! ### binary search -/
+
+/-- the length of the maximal prefix below `q` is the only position that splits the list into
+    "below `q`" and "first element not below `q`" -/
+theorem takeWhile_length_unique (cs : List Int) (q : Int) (p : Nat) (hp : p ≤ cs.length)
+    (hlt : ∀ i, i < p → cs.getD i 0 < q) (hge : p < cs.length → ¬ cs.getD p 0 < q) :
+    (cs.takeWhile (fun c => decide (c < q))).length = p := by
+  induction cs generalizing p with
+  | nil => simp at hp; simp [hp]
+  | cons c r ih =>
+    cases p with
+    | zero =>
+      have := hge (by simp)
+      simp only [List.getD_cons_zero] at this
+      simp [List.takeWhile_cons, this]
+    | succ p =>
+      have h0 := hlt 0 (by omega)
+      simp only [List.getD_cons_zero] at h0
+      simp only [List.takeWhile_cons, h0, decide_true, if_true, List.length_cons]
+      congr 1
+      apply ih p (by simpa using hp)
+      · intro i hi
+        have := hlt (i + 1) (by omega)
+        simpa using this
+      · intro h
+        have := hge (by simpa using h)
+        simpa using this
+
+theorem inc_getD (cs : List Int) (h : Inc cs) (i j : Nat) (hij : i < j) (hj : j < cs.length) :
+    cs.getD i 0 < cs.getD j 0 := by
+  have hi : i < cs.length := by omega
+  have e1 : cs.getD i 0 = cs[i] := by simp [List.getD_eq_getElem?_getD, hi]
+  have e2 : cs.getD j 0 = cs[j] := by simp [List.getD_eq_getElem?_getD, hj]
+  rw [e1, e2]
+  exact (List.pairwise_iff_getElem.1 h) i j hi hj hij
+
+/-- the loop of `coordToHandle`: with everything left of `lo` below `q`, everything right of
+    `hi` above `q` and `mid` the last probe, the result is the lower-bound position -/
+theorem bsearch_spec (cs : List Int) (hinc : Inc cs) (q : Int) (lo hi mid : Int)
+    (h0 : 0 ≤ lo) (hhi : hi < cs.length) (hlh : lo ≤ hi + 1)
+    (hL : ∀ i : Nat, (i : Int) < lo → cs.getD i 0 < q)
+    (hR : ∀ i : Nat, hi < (i : Int) → i < cs.length → q < cs.getD i 0)
+    (hM : hi < lo → (lo = mid + 1 ∧ cs.getD mid.toNat 0 < q) ∨ (lo = mid ∧ 0 ≤ mid ∧ q < cs.getD mid.toNat 0)) :
+    let r := bsearch cs q lo hi mid
+    0 ≤ r ∧ r ≤ cs.length ∧ (∀ i : Nat, (i : Int) < r → cs.getD i 0 < q) ∧
+      (∀ i : Nat, r ≤ (i : Int) → i < cs.length → q ≤ cs.getD i 0) := by
+  fun_induction bsearch cs q lo hi mid with
+  | case1 lo hi mid hle mid' v hv =>
+    -- found
+    have hm0 : 0 ≤ mid' := by simp only [mid']; omega
+    have hmh : mid' ≤ hi := by simp only [mid']; omega
+    have hml : mid'.toNat < cs.length := by omega
+    refine ⟨hm0, by omega, ?_, ?_⟩
+    · intro i hi'
+      have := inc_getD cs hinc i mid'.toNat (by omega) hml
+      rw [← hv]; exact this
+    · intro i hi' hil
+      by_cases he : i = mid'.toNat
+      · subst he; rw [← hv]; exact Int.le_refl _
+      · have := inc_getD cs hinc mid'.toNat i (by omega) hil
+        rw [← hv]; exact Int.le_of_lt this
+  | case2 lo hi mid hle mid' v hv hlt ih =>
+    have hm0 : 0 ≤ mid' := by simp only [mid']; omega
+    have hmh : mid' ≤ hi := by simp only [mid']; omega
+    have hml : mid'.toNat < cs.length := by omega
+    apply ih (by omega) hhi (by omega)
+    · intro i hi'
+      by_cases he : i = mid'.toNat
+      · subst he; exact hlt
+      · have := inc_getD cs hinc i mid'.toNat (by omega) hml
+        exact Int.lt_trans this hlt
+    · exact hR
+    · intro _; left; exact ⟨rfl, hlt⟩
+  | case3 lo hi mid hle mid' v hv hnlt ih =>
+    have hm0 : 0 ≤ mid' := by simp only [mid']; omega
+    have hmh : mid' ≤ hi := by simp only [mid']; omega
+    have hlm : lo ≤ mid' := by simp only [mid']; omega
+    have hml : mid'.toNat < cs.length := by omega
+    have hgt : q < v := by omega
+    apply ih h0 (by omega) (by omega) hL
+    · intro i hi' hil
+      by_cases he : i = mid'.toNat
+      · subst he; exact hgt
+      · have := inc_getD cs hinc mid'.toNat i (by omega) hil
+        exact Int.lt_trans hgt this
+    · intro hlt'
+      right; exact ⟨by omega, hm0, hgt⟩
+  | case4 lo hi mid hnle hgt =>
+    rcases hM (by omega) with ⟨h1, h2⟩ | ⟨h1, h2, h3⟩
+    · refine ⟨by omega, by omega, ?_, ?_⟩
+      · intro i hi'; exact hL i (by omega)
+      · intro i hi' hil; exact Int.le_of_lt (hR i (by omega) hil)
+    · omega
+  | case5 lo hi mid hnle hngt =>
+    rcases hM (by omega) with ⟨h1, h2⟩ | ⟨h1, h2, h3⟩
+    · omega
+    · refine ⟨by omega, by omega, ?_, ?_⟩
+      · intro i hi'; exact hL i (by omega)
+      · intro i hi' hil; exact Int.le_of_lt (hR i (by omega) hil)
+
+
+theorem getLastD_eq_getD (c0 : Int) (r : List Int) :
+    (c0 :: r).getLastD 0 = (c0 :: r).getD r.length 0 := by
+  induction r generalizing c0 with
+  | nil => rfl
+  | cons c1 r ih =>
+    have := ih c1
+    simp only [List.getLastD_cons, List.length_cons, List.getD_cons_succ] at this ⊢
+    exact this
+
+/-- `CoordinateList.coordToHandle` on strictly increasing coordinates is the lower bound:
+    the handle of the first stored coordinate not below the query, None past the end -/
+theorem c2hC_lowerHandle (cs : List Int) (hinc : Inc cs) (q : Int) : c2hC cs q = lowerHandle cs q := by
+  cases cs with
+  | nil => rfl
+  | cons c0 r =>
+    have hlast := getLastD_eq_getD c0 r
+    simp only [c2hC, lowerHandle]
+    by_cases h1 : q > (c0 :: r).getLastD 0
+    · -- past the end
+      rw [if_pos h1]
+      have : ((c0 :: r).takeWhile (fun c => decide (c < q))).length = (c0 :: r).length := by
+        apply takeWhile_length_unique _ _ _ (Nat.le_refl _)
+        · intro i hi
+          rw [hlast] at h1
+          by_cases he : i = r.length
+          · subst he; exact h1
+          · have := inc_getD _ hinc i r.length (by simp at hi; omega) (by simp)
+            exact Int.lt_trans this h1
+        · intro h; omega
+      rw [this]; simp
+    · rw [if_neg h1]
+      by_cases h2 : q ≤ c0
+      · rw [if_pos h2]
+        have : ((c0 :: r).takeWhile (fun c => decide (c < q))).length = 0 := by
+          apply takeWhile_length_unique _ _ _ (Nat.zero_le _)
+          · intro i hi; omega
+          · intro _; simp; omega
+        rw [this]; simp
+      · rw [if_neg h2]
+        have hs := bsearch_spec (c0 :: r) hinc q 0 (((c0 :: r).length : Int) - 1) 0 (Int.le_refl _) (by omega)
+          (by simp; omega) (by intro i hi; omega) (by intro i hi hil; omega) (by intro h; simp at h; omega)
+        obtain ⟨hr0, hrl, hL, hR⟩ := hs
+        have hrlt : bsearch (c0 :: r) q 0 (((c0 :: r).length : Int) - 1) 0 < (c0 :: r).length := by
+          by_cases h : bsearch (c0 :: r) q 0 (((c0 :: r).length : Int) - 1) 0 < ((c0 :: r).length : Int)
+          · exact h
+          · exfalso
+            have := hL r.length (by simp at h ⊢; omega)
+            rw [hlast] at h1
+            omega
+        have : ((c0 :: r).takeWhile (fun c => decide (c < q))).length
+            = (bsearch (c0 :: r) q 0 (((c0 :: r).length : Int) - 1) 0).toNat := by
+          apply takeWhile_length_unique _ _ _ (by omega)
+          · intro i hi; exact hL i (by omega)
+          · intro hlt
+            have := hR _ (by omega) hlt
+            omega
+        rw [this, if_pos (by omega)]
+
+
+/-! ### the invariant of encoded fiber objects -/
+
+/-- what every fiber object produced by the encoder satisfies (the invariant the handle
+    interface relies on) -/
+structure FibFacts (F : EFib) : Prop where
+  n_eq : F.n = F.ecoords.length
+  coords_eq : F.coords = storedCoords F.fmt F.shape F.ecoords
+  inc : Inc F.ecoords
+  inrange : ∀ c ∈ F.ecoords, (0 : Int) ≤ c ∧ c < ((F.shape : Nat) : Int)
+  dense : F.fmt = .U → F.ecoords = irange F.shape
+  occs_len : F.occs.length = (match F.next with | some g => if g.explicit then F.n else 0 | none => 0)
+  vals_len : F.vals.length = (match F.next with | some _ => 0 | none => F.n)
+  npay_eq : F.npay = (match F.fmt, F.next with
+                      | .C, some g => if g.explicit then F.n else 0
+                      | _, _ => F.n)
+
+theorem mem_flatten_zipApp {α : Type} (a b : List (List α)) (x : α) (h : x ∈ (zipApp a b).flatten) :
+    x ∈ a.flatten ∨ x ∈ b.flatten := by
+  induction a generalizing b with
+  | nil => simp [zipApp] at h
+  | cons u a ih =>
+    cases b with
+    | nil => simp [zipApp] at h
+    | cons v b =>
+      rw [zipApp_cons, List.flatten_cons, List.mem_append, List.mem_append] at h
+      rcases h with (h | h) | h
+      · left; simp [h]
+      · right; simp [h]
+      · rcases ih b h with h | h
+        · left; simp [h]
+        · right; simp [h]
+
+theorem encKids_fibs {α : Type} (P : EFib → Prop) (Q : α → Prop) (k : Nat) (enc1 : Cnt → α → Res)
+    (h1 : ∀ cnt x, Q x → ∀ F ∈ (enc1 cnt x).fibs.flatten, P F)
+    (xs : List α) (hQ : ∀ x ∈ xs, Q x) (cnt : Cnt) (cum : Nat) :
+    ∀ F ∈ (encKids k enc1 xs cnt cum).fibs.flatten, P F := by
+  induction xs generalizing cnt cum with
+  | nil => intro F hF; simp [encKids] at hF
+  | cons x xs ih =>
+    intro F hF
+    simp only [encKids] at hF
+    rcases mem_flatten_zipApp _ _ F hF with h | h
+    · exact h1 cnt x (hQ x (List.mem_cons_self ..)) F h
+    · exact ih (fun y hy => hQ y (List.mem_cons_of_mem _ hy)) _ _ F h
+
+theorem encF_zero_fibs (f : Fmt) (fs' : List Fmt) (tsh : List Nat) (ish : Option (List Nat)) (pidx : Nat) (cnt : Cnt)
+    (a : List (Int × Int)) :
+    (encF 0 (f :: fs') tsh ish pidx cnt a).fibs =
+      [[{ fmt := f, next := none, shape := dimOf tsh ish,
+          n := (elemsOf f (dimOf tsh ish) (0 : Int) (fun v => decide (v = 0)) a).length,
+          ecoords := (elemsOf f (dimOf tsh ish) (0 : Int) (fun v => decide (v = 0)) a).map (·.1),
+          coords := storedCoords f (dimOf tsh ish) ((elemsOf f (dimOf tsh ish) (0 : Int) (fun v => decide (v = 0)) a).map (·.1)),
+          occs := [], vals := (elemsOf f (dimOf tsh ish) (0 : Int) (fun v => decide (v = 0)) a).map (·.2),
+          npay := (elemsOf f (dimOf tsh ish) (0 : Int) (fun v => decide (v = 0)) a).length,
+          nnz := (match f with | .U => pidx | _ => (elemsOf f (dimOf tsh ish) (0 : Int) (fun v => decide (v = 0)) a).length),
+          idx := (cnt.headD (0, 0)).1, osf := (cnt.headD (0, 0)).2, kid0 := 0 }]] := rfl
+
+theorem encF_succ_fibs (d : Nat) (f : Fmt) (fs' : List Fmt) (tsh : List Nat) (ish : Option (List Nat))
+    (pidx : Nat) (cnt : Cnt) (a : List (Int × Tree Int Int (d + 1))) :
+    (encF (d + 1) (f :: fs') tsh ish pidx cnt a).fibs =
+      [{ fmt := f, next := some (fs'.headD .U), shape := dimOf tsh ish,
+         n := (elemsOf f (dimOf tsh ish) (emptyT d) (isEmpty (κ := Int) (0 : Int) (d + 1)) a).length,
+         ecoords := (elemsOf f (dimOf tsh ish) (emptyT d) (isEmpty (κ := Int) (0 : Int) (d + 1)) a).map (·.1),
+         coords := storedCoords f (dimOf tsh ish)
+           ((elemsOf f (dimOf tsh ish) (emptyT d) (isEmpty (κ := Int) (0 : Int) (d + 1)) a).map (·.1)),
+         occs := (if (fs'.headD .U).explicit then
+                    (encKids (d + 1) (encF d fs' tsh.tail (ishNext f ish) (cnt.headD (0, 0)).1)
+                      ((elemsOf f (dimOf tsh ish) (emptyT d) (isEmpty (κ := Int) (0 : Int) (d + 1)) a).map (·.2))
+                      cnt.tail 0).cums
+                  else []),
+         vals := [],
+         npay := (match f with
+                  | .C => (if (fs'.headD .U).explicit then
+                            (elemsOf f (dimOf tsh ish) (emptyT d) (isEmpty (κ := Int) (0 : Int) (d + 1)) a).length else 0)
+                  | _ => (elemsOf f (dimOf tsh ish) (emptyT d) (isEmpty (κ := Int) (0 : Int) (d + 1)) a).length),
+         nnz := (match f with
+                 | .U => pidx
+                 | _ => (elemsOf f (dimOf tsh ish) (emptyT d) (isEmpty (κ := Int) (0 : Int) (d + 1)) a).length),
+         idx := (cnt.headD (0, 0)).1, osf := (cnt.headD (0, 0)).2, kid0 := (cnt.tail.headD (0, 0)).1 }] ::
+      (encKids (d + 1) (encF d fs' tsh.tail (ishNext f ish) (cnt.headD (0, 0)).1)
+        ((elemsOf f (dimOf tsh ish) (emptyT d) (isEmpty (κ := Int) (0 : Int) (d + 1)) a).map (·.2)) cnt.tail 0).fibs := rfl
+
+theorem encF_fibs_facts_zero (fs : List Fmt) (tsh : List Nat) (ish : Option (List Nat)) (pidx : Nat) (cnt : Cnt)
+    (a : List (Int × Int))
+    (hfs : fs.length = 1) (hwf : wfB (κ := Int) (ν := Int) 1 a = true) (hin : inEff 1 fs tsh ish a = true) :
+    ∀ F ∈ (encF 0 fs tsh ish pidx cnt a).fibs.flatten, FibFacts F := by
+  intro F hF
+  match fs, hfs with
+  | [f], _ =>
+  have hwf2 : (sortedB a && a.all (fun e => wfB (κ := Int) (ν := Int) 0 e.2)) = true := hwf
+  rw [Bool.and_eq_true] at hwf2
+  have hs : Sorted a := (sortedB_iff _).1 hwf2.1
+  have hin2 : (a.all fun e => decide (0 ≤ e.1) && decide (e.1 < ((dimOf tsh ish : Nat) : Int)) && true) = true := hin
+  rw [List.all_eq_true] at hin2
+  have hin' : ∀ e ∈ a, 0 ≤ e.1 ∧ e.1 < ((dimOf tsh ish : Nat) : Int) := by
+    intro e he
+    have := hin2 e he
+    simp only [Bool.and_eq_true, decide_eq_true_eq] at this
+    exact ⟨this.1.1, this.1.2⟩
+  rw [encF_zero_fibs] at hF
+  simp only [List.flatten_cons, List.flatten_nil, List.append_nil, List.mem_singleton] at hF
+  subst hF
+  refine ⟨by simp, rfl, elemsOf_coords_inc _ _ _ _ _ hs, elemsOf_coords_in _ _ _ _ _ hin', ?_, rfl, by simp, ?_⟩
+  · intro h; simp only at h; subst h; exact elemsOf_U_coords _ _ _ _
+  · cases f <;> rfl
+
+/-- every fiber object the encoder creates satisfies the invariant -/
+theorem encF_fibs_facts (d : Nat) : ∀ (fs : List Fmt) (tsh : List Nat) (ish : Option (List Nat)) (pidx : Nat) (cnt : Cnt)
+    (a : List (Int × Tree Int Int d)),
+    fs.length = d + 1 → wfB (κ := Int) (ν := Int) (d + 1) a = true → inEff (d + 1) fs tsh ish a = true →
+    ∀ F ∈ (encF d fs tsh ish pidx cnt a).fibs.flatten, FibFacts F := by
+  induction d with
+  | zero =>
+    intro fs tsh ish pidx cnt a hfs hwf hin
+    exact encF_fibs_facts_zero fs tsh ish pidx cnt a hfs hwf hin
+  | succ d ih =>
+    intro fs tsh ish pidx cnt a hfs hwf hin F hF
+    match fs, hfs with
+    | f :: fs', hfs' =>
+    have hfs'' : fs'.length = d + 1 := by simpa using hfs'
+    have hwf2 : (sortedB a && a.all (fun e => wfB (κ := Int) (ν := Int) (d + 1) e.2)) = true := hwf
+    rw [Bool.and_eq_true, List.all_eq_true] at hwf2
+    have hs : Sorted a := (sortedB_iff _).1 hwf2.1
+    have hin2 : (a.all fun e => decide (0 ≤ e.1) && decide (e.1 < ((dimOf tsh ish : Nat) : Int)) &&
+        inEff (d + 1) fs' tsh.tail (ishNext f ish) e.2) = true := hin
+    rw [List.all_eq_true] at hin2
+    have hin' : ∀ e ∈ a, 0 ≤ e.1 ∧ e.1 < ((dimOf tsh ish : Nat) : Int) := by
+      intro e he
+      have := hin2 e he
+      simp only [Bool.and_eq_true, decide_eq_true_eq] at this
+      exact ⟨this.1.1, this.1.2⟩
+    obtain ⟨els, hels⟩ : ∃ els, els = elemsOf f (dimOf tsh ish) (emptyT d) (isEmpty (κ := Int) (0 : Int) (d + 1)) a := ⟨_, rfl⟩
+    have hP : ∀ x ∈ els.map (·.2), wfB (κ := Int) (ν := Int) (d + 1) x = true ∧
+        inEff (d + 1) fs' tsh.tail (ishNext f ish) x = true := by
+      intro x hx
+      obtain ⟨e, he, rfl⟩ := List.mem_map.1 hx
+      rw [hels] at he
+      rcases elemsOf_payload _ _ _ _ _ e he with h | ⟨e', he', h⟩
+      · rw [h]; constructor <;> rfl
+      · rw [← h]
+        refine ⟨hwf2.2 e' he', ?_⟩
+        have := hin2 e' he'
+        simp only [Bool.and_eq_true] at this
+        exact this.2
+    have hlenE : ∀ (c : Cnt) (x : Tree Int Int (d + 1)),
+        (encF d fs' tsh.tail (ishNext f ish) (cnt.headD (0, 0)).1 c x).cs.length = d + 1 ∧
+        (encF d fs' tsh.tail (ishNext f ish) (cnt.headD (0, 0)).1 c x).ps.length = d + 1 :=
+      fun c x => encF_len d _ _ _ _ c x
+    have hKlen := encKids_len (d + 1) _ hlenE (els.map (·.2)) cnt.tail 0
+    rw [encF_succ_fibs, ← hels] at hF
+    rw [List.flatten_cons, List.mem_append] at hF
+    rcases hF with hF | hF
+    · simp only [List.mem_singleton] at hF
+      subst hF
+      refine ⟨by simp, rfl, by rw [hels]; exact elemsOf_coords_inc _ _ _ _ _ hs,
+        by rw [hels]; exact elemsOf_coords_in _ _ _ _ _ hin', ?_, ?_, rfl, ?_⟩
+      · intro h; simp only at h; subst h; rw [hels]; exact elemsOf_U_coords _ _ _ _
+      · simp only
+        cases (fs'.headD .U).explicit with
+        | true => simp only [if_true]; rw [hKlen.2.2]; simp
+        | false => simp
+      · cases f <;> rfl
+    · exact encKids_fibs FibFacts
+        (fun x => wfB (κ := Int) (ν := Int) (d + 1) x = true ∧ inEff (d + 1) fs' tsh.tail (ishNext f ish) x = true)
+        (d + 1) _ (fun c x hx => ih fs' tsh.tail (ishNext f ish) _ c x hfs'' hx.1 hx.2) _ hP _ _ F hF
+
+
+/-! ### lookup, size, scan of an encoded fiber -/
+
+theorem coordToHandle_C (F : EFib) (hF : FibFacts F) (hC : F.fmt = .C) (q : Int) :
+    F.coordToHandle q = lowerHandle F.ecoords q := by
+  have hc : F.coords = F.ecoords := by rw [hF.coords_eq, hC]; rfl
+  simp only [EFib.coordToHandle, hC, hc]
+  exact c2hC_lowerHandle F.ecoords hF.inc q
+
+theorem getSize_facts (F : EFib) (hF : FibFacts F) :
+    F.getSize = if F.sizeAsserts then none else some F.words := by
+  obtain ⟨hn, hc, _, _, _, hocc, hval, hnp⟩ := hF
+  have hclen : F.fmt = .C → F.coords.length = F.n := by
+    intro h; rw [hc, h, hn]; rfl
+  have hblen : F.fmt = .B → F.coords.length = F.shape := by
+    intro h; rw [hc, h]; exact length_maskOf _ _
+  cases hf : F.fmt with
+  | U =>
+    rw [hf] at hnp
+    cases hnx : F.next with
+    | none =>
+      rw [hnx] at hocc hnp
+      simp only [EFib.getSize, EFib.words, EFib.sizeAsserts, EFib.isLeaf, hf, hnx, hocc, hnp]
+      by_cases h0 : F.n = 0 <;> simp [h0]
+    | some g =>
+      rw [hnx] at hocc hnp
+      simp only [EFib.getSize, EFib.words, EFib.sizeAsserts, EFib.isLeaf, hf, hnx, hocc, hnp]
+      by_cases h0 : F.n = 0 <;> cases g.explicit <;> simp [h0]
+  | C =>
+    have hl := hclen hf
+    rw [hf] at hnp
+    cases hnx : F.next with
+    | none =>
+      rw [hnx] at hocc hnp
+      simp only [EFib.getSize, EFib.words, EFib.sizeAsserts, hf, hnx, hocc, hnp, hl]
+      simp
+    | some g =>
+      rw [hnx] at hocc hnp
+      simp only [EFib.getSize, EFib.words, EFib.sizeAsserts, hf, hnx, hocc, hnp, hl]
+      by_cases h0 : F.n = 0 <;> cases g.explicit <;> simp [h0]
+  | B =>
+    have hl := hblen hf
+    rw [hf] at hnp
+    cases hnx : F.next with
+    | none =>
+      rw [hnx] at hocc hnp
+      simp only [EFib.getSize, EFib.words, EFib.sizeAsserts, hf, hnx, hocc, hnp, hl]
+      simp
+    | some g =>
+      rw [hnx] at hocc hnp
+      simp only [EFib.getSize, EFib.words, EFib.sizeAsserts, hf, hnx, hocc, hnp, hl]
+      cases g.explicit <;> simp
+
+
+/-- the k-th coordinate of `l` paired with payload handle `k`, counting from `k0` -/
+def specFrom (l : List Int) (k0 : Nat) : List (Option Int × Option Nat) :=
+  (l.zipIdx k0).map (fun e => (some e.1, some e.2))
+
+theorem specFrom_cons (c : Int) (l : List Int) (k : Nat) :
+    specFrom (c :: l) k = (some c, some k) :: specFrom l (k + 1) := by
+  simp [specFrom, List.zipIdx_cons]
+
+theorem scanSpec_eq (F : EFib) : F.scanSpec = specFrom F.layoutCoords 0 := rfl
+
+/-- U: handles `h … shape-1`, coordinate = payload handle = position -/
+theorem scanFrom_U (F : EFib) (hU : F.fmt = .U) (hnp : F.npay = F.shape) (m h : Nat) (hm : h + m = F.shape) :
+    scanFrom F F.shape h = specFrom (posFrom h m) h := by
+  induction m generalizing h with
+  | zero =>
+    rw [scanFrom]
+    simp [posFrom_zero, specFrom, show ¬ h < F.shape by omega]
+  | succ m ih =>
+    rw [scanFrom]
+    have hlt : h < F.shape := by omega
+    rw [if_pos hlt, posFrom_succ, specFrom_cons, ih (h + 1) (by omega)]
+    simp only [hU, EFib.handleToPayload, hnp]
+    rw [if_neg (by omega)]
+
+/-- C (not above U): handles `h … len-1`, the stored coordinate and the handle itself -/
+theorem scanFrom_C (F : EFib) (hC : F.fmt = .C) (hnu : F.next ≠ some .U) (m h : Nat)
+    (hm : h + m = F.coords.length) :
+    scanFrom F F.coords.length h = specFrom (F.coords.drop h) h := by
+  induction m generalizing h with
+  | zero =>
+    rw [scanFrom]
+    have : F.coords.drop h = [] := List.drop_eq_nil_of_le (by omega)
+    simp [this, specFrom, show ¬ h < F.coords.length by omega]
+  | succ m ih =>
+    rw [scanFrom]
+    have hlt : h < F.coords.length := by omega
+    have hd : F.coords.drop h = F.coords.getD h 0 :: F.coords.drop (h + 1) := by
+      rw [List.drop_eq_getElem_cons hlt]
+      simp [List.getD_eq_getElem?_getD, hlt]
+    rw [if_pos hlt, hd, specFrom_cons, ih (h + 1) (by omega)]
+    have hp : F.handleToPayload h = some h := by
+      simp only [EFib.handleToPayload, hC]
+      cases hnx : F.next with
+      | none => rfl
+      | some g =>
+        cases g with
+        | U => exact absurd hnx hnu
+        | C => rfl
+        | B => rfl
+    simp only [hC, hp]
+    rw [if_neg (by omega)]
+
+/-- C above U: every handle maps to `occupancy_so_far` -/
+theorem scanFrom_CU (F : EFib) (hC : F.fmt = .C) (hnu : F.next = some .U) (m h : Nat)
+    (hm : h + m = F.coords.length) :
+    scanFrom F F.coords.length h = (F.coords.drop h).map (fun c => (some c, some F.osf)) := by
+  induction m generalizing h with
+  | zero =>
+    rw [scanFrom]
+    have : F.coords.drop h = [] := List.drop_eq_nil_of_le (by omega)
+    simp [this, show ¬ h < F.coords.length by omega]
+  | succ m ih =>
+    rw [scanFrom]
+    have hlt : h < F.coords.length := by omega
+    have hd : F.coords.drop h = F.coords.getD h 0 :: F.coords.drop (h + 1) := by
+      rw [List.drop_eq_getElem_cons hlt]
+      simp [List.getD_eq_getElem?_getD, hlt]
+    rw [if_pos hlt, hd, List.map_cons, ih (h + 1) (by omega)]
+    have hp : F.handleToPayload h = some F.osf := by
+      simp only [EFib.handleToPayload, hC, hnu]; rfl
+    simp only [hC, hp]
+    rw [if_neg (by omega)]
+
+/-- positions (from `ch`) of the set bits -/
+def maskCoordsFrom (ch : Nat) (bits : List Int) : List Int :=
+  ((bits.zipIdx ch).filter (fun e => !decide (e.1 = 0))).map (fun e => (e.2 : Int))
+
+theorem maskCoords_eq_from (bits : List Int) : maskCoords bits = maskCoordsFrom 0 bits := rfl
+
+theorem maskCoordsFrom_cons (ch : Nat) (b : Int) (r : List Int) :
+    maskCoordsFrom ch (b :: r) = if b = 0 then maskCoordsFrom (ch + 1) r else (ch : Int) :: maskCoordsFrom (ch + 1) r := by
+  by_cases h : b = 0 <;> simp [maskCoordsFrom, List.zipIdx_cons, List.filter_cons, h]
+
+/-- B: the set positions in order with a running payload handle, provided the payload list
+    has exactly one entry per set bit -/
+theorem scanBits_spec (F : EFib) (hB : F.fmt = .B) (bits : List Int) (h01 : ∀ b ∈ bits, b = 0 ∨ b = 1)
+    (ch ph : Nat) (hcnt : ph + (maskCoordsFrom ch bits).length = F.npay) :
+    scanBits F bits ch ph = specFrom (maskCoordsFrom ch bits) ph := by
+  induction bits generalizing ch ph with
+  | nil => simp [scanBits, maskCoordsFrom, specFrom]
+  | cons b r ih =>
+    have hr : ∀ x ∈ r, x = 0 ∨ x = 1 := fun x hx => h01 x (List.mem_cons_of_mem _ hx)
+    rw [maskCoordsFrom_cons] at hcnt ⊢
+    rcases h01 b (List.mem_cons_self ..) with hb | hb
+    · subst hb
+      simp only [if_true] at hcnt ⊢
+      rw [scanBits]
+      by_cases hge : ph ≥ F.npay
+      · rw [if_pos hge]
+        have : (maskCoordsFrom (ch + 1) r).length = 0 := by omega
+        rw [List.length_eq_zero_iff.1 this]; rfl
+      · rw [if_neg hge, if_neg (by decide)]
+        exact ih hr (ch + 1) ph hcnt
+    · subst hb
+      simp only [show ¬ ((1 : Int) = 0) by decide, if_false, List.length_cons] at hcnt ⊢
+      rw [scanBits, if_neg (by omega), if_pos rfl, specFrom_cons, ih hr (ch + 1) (ph + 1) (by omega)]
+      simp only [EFib.handleToPayload, hB]
+      rw [if_neg (by omega)]
+
+theorem maskOf_01 (dim : Nat) (cs : List Int) : ∀ b ∈ maskOf dim cs, b = 0 ∨ b = 1 := by
+  intro b hb
+  simp only [maskOf, List.mem_map] at hb
+  obtain ⟨i, _, rfl⟩ := hb
+  by_cases h : cs.contains i = true
+  · right; rw [if_pos h]
+  · left; rw [if_neg h]
+
+/-- the layout coordinates of an encoded fiber are the coordinates of its source elements -/
+theorem layoutCoords_facts (F : EFib) (hF : FibFacts F) : F.layoutCoords = F.ecoords := by
+  cases hf : F.fmt with
+  | U => simp only [EFib.layoutCoords, hf]; exact (hF.dense hf).symm
+  | C => simp only [EFib.layoutCoords, hf]; rw [hF.coords_eq, hf]; rfl
+  | B =>
+    simp only [EFib.layoutCoords, hf]
+    rw [hF.coords_eq, hf]
+    exact maskCoords_maskOf _ _ hF.inc hF.inrange
+
+/-- scanning an encoded fiber through its handle interface yields its layout coordinates in
+    order, the k-th with payload handle k — except for C above U -/
+theorem scan_facts (F : EFib) (hF : FibFacts F) (hcu : ¬ (F.fmt = .C ∧ F.next = some .U)) :
+    F.scan = F.scanSpec := by
+  rw [scanSpec_eq]
+  cases hf : F.fmt with
+  | U =>
+    have hsh : F.n = F.shape := by rw [hF.n_eq, hF.dense hf]; simp [irange]
+    have hnp : F.npay = F.shape := by
+      rw [hF.npay_eq, hf]; exact hsh
+    simp only [EFib.scan, EFib.layoutCoords, EFib.coordToHandle, hf]
+    by_cases h0 : F.shape = 0
+    · simp [h0, irange, specFrom]
+    · have : ¬ ((0 : Int) < 0 ∨ (0 : Int) ≥ (F.shape : Int)) := by omega
+      rw [if_neg this]
+      simp only [Int.toNat_zero]
+      rw [scanFrom_U F hf hnp F.shape 0 (by omega), irange_eq]
+  | C =>
+    have hnu : F.next ≠ some .U := fun h => hcu ⟨hf, h⟩
+    have hc : F.coords = F.ecoords := by rw [hF.coords_eq, hf]; rfl
+    simp only [EFib.scan, EFib.layoutCoords, EFib.coordToHandle, hf]
+    rw [hc, c2hC_lowerHandle F.ecoords hF.inc 0]
+    have hlb : (F.ecoords.takeWhile (fun c => decide (c < 0))).length = 0 := by
+      apply takeWhile_length_unique _ _ _ (Nat.zero_le _)
+      · intro i hi; omega
+      · intro hlt
+        have hmem : F.ecoords.getD 0 0 ∈ F.ecoords := by
+          simp [List.getD_eq_getElem?_getD, hlt]
+        have := (hF.inrange _ hmem).1
+        omega
+    simp only [lowerHandle, hlb]
+    by_cases h0 : 0 < F.ecoords.length
+    · rw [if_pos h0]
+      have := scanFrom_C F hf hnu F.coords.length 0 (by omega)
+      rw [hc] at this
+      simpa using this
+    · rw [if_neg h0]
+      have : F.ecoords = [] := List.length_eq_zero_iff.1 (by omega)
+      simp [this, specFrom]
+  | B =>
+    have hc : F.coords = maskOf F.shape F.ecoords := by rw [hF.coords_eq, hf]; rfl
+    have hmc : maskCoords F.coords = F.ecoords := by rw [hc]; exact maskCoords_maskOf _ _ hF.inc hF.inrange
+    have hnp : F.npay = F.n := by rw [hF.npay_eq, hf]
+    simp only [EFib.scan, EFib.layoutCoords, hf]
+    rw [maskCoords_eq_from]
+    apply scanBits_spec F hf F.coords (by rw [hc]; exact maskOf_01 _ _) 0 0
+    rw [← maskCoords_eq_from, hmc, hnp, hF.n_eq]; simp
+
+/-- C above U: the coordinates are right, every payload handle is `occupancy_so_far` -/
+theorem scan_CU_facts (F : EFib) (hF : FibFacts F) (hf : F.fmt = .C) (hnu : F.next = some .U) :
+    F.scan = F.ecoords.map (fun c => (some c, some F.osf)) := by
+  have hc : F.coords = F.ecoords := by rw [hF.coords_eq, hf]; rfl
+  simp only [EFib.scan, EFib.coordToHandle, hf]
+  rw [hc, c2hC_lowerHandle F.ecoords hF.inc 0]
+  have hlb : (F.ecoords.takeWhile (fun c => decide (c < 0))).length = 0 := by
+    apply takeWhile_length_unique _ _ _ (Nat.zero_le _)
+    · intro i hi; omega
+    · intro hlt
+      have hmem : F.ecoords.getD 0 0 ∈ F.ecoords := by
+        simp [List.getD_eq_getElem?_getD, hlt]
+      have := (hF.inrange _ hmem).1
+      omega
+  simp only [lowerHandle, hlb]
+  by_cases h0 : 0 < F.ecoords.length
+  · rw [if_pos h0]
+    have := scanFrom_CU F hf hnu F.coords.length 0 (by omega)
+    rw [hc] at this
+    simpa using this
+  · rw [if_neg h0]
+    have : F.ecoords = [] := List.length_eq_zero_iff.1 (by omega)
+    simp [this]
+
+
+theorem mem_zipIdx_lt {α : Type} (l : List α) (e : α × Nat) (h : e ∈ l.zipIdx) : e.2 < l.length := by
+  have := List.mem_zipIdx h
+  omega
+
+/-- … and with every payload handle resolved (leaf: `payloadToValue`, above: the child fiber
+    it designates) the scan yields the fiber's elements — except for C above U -/
+theorem scanElems_facts (F : EFib) (hF : FibFacts F) (hcu : ¬ (F.fmt = .C ∧ F.next = some .U)) :
+    F.scanElems = F.elemsSpec := by
+  simp only [EFib.scanElems, scan_facts F hF hcu, EFib.scanSpec, layoutCoords_facts F hF, EFib.elemsSpec,
+    List.map_map]
+  apply List.map_congr_left
+  intro e he
+  have hk : e.2 < F.n := by rw [hF.n_eq]; exact mem_zipIdx_lt _ _ he
+  simp only [Function.comp, EFib.resolve]
+  cases hnx : F.next with
+  | none =>
+    have hnp : F.npay = F.n := by
+      rw [hF.npay_eq, hnx]; cases F.fmt <;> rfl
+    simp only [hnp]
+    rw [if_neg (by omega)]
+  | some g =>
+    have hnp : F.npay = F.n := by
+      rw [hF.npay_eq, hnx]
+      cases hf : F.fmt with
+      | U => rfl
+      | B => rfl
+      | C =>
+        cases g with
+        | U => exact absurd ⟨hf, hnx⟩ hcu
+        | C => rfl
+        | B => rfl
+    simp only [hnp]
+    have hne : ¬ (F.fmt = .C ∧ g = .U) := by
+      intro h; exact hcu ⟨h.1, by rw [hnx, h.2]⟩
+    rw [if_neg hne, if_pos hk]
+
+
 end Codec
 end Ft
